@@ -1,5 +1,6 @@
 import FV.Props.Catalog
 import FV.VecRefine
+import FV.StrRefine
 /-! # C11 — FlatVec / FlatString = capacity-bounded Vec / String under every history
 
 `vecOp` is the operation as `stavec::GenericVec` performs it on the mapped bytes (the model the correspondence check compares
@@ -61,4 +62,53 @@ theorem C11_valid_gives_invariant (d : Dict) (sz : Nat) (hss : d.ssize = sz) (l 
 example : vecOp ⟨L16, 2, 2, 2⟩ [1,0, 1,0, 9,9, 9] 1 (.push [2,0]) = .ok ⟨.ok, [2,0, 1,0, 2,0, 9]⟩ := by decide
 example : vecOp ⟨L16, 2, 2, 2⟩ [2,0, 1,0, 2,0, 9] 2 (.remove 0) = .ok ⟨.elem [1,0], [1,0, 2,0, 2,0, 9]⟩ := by decide
 example : VInv ⟨L16, 2, 2, 2⟩ [1,0, 1,0, 9,9, 9] 1 := ⟨by decide, by decide, by decide, by decide, by decide⟩
+
+/-- **C11 for `FlatString`: `push(char)` / `push_str` on a valid string.** The slice validates as `FlatString<L>` (so the text is
+valid UTF-8 within the capacity the slice leaves); valid UTF-8 bytes are pushed. Then the operation never faults and keeps the
+buffer length; it is accepted exactly when the new text fits the capacity, and the text is then the old text followed by the pushed
+bytes; otherwise it is refused and no byte changes; and **in both cases the bytes validate again** with the same geometry — the
+capacity never changes and the text stays valid UTF-8. (`clear`, which only rewrites the length field, is the `clear` of
+`C11_vec_step_refines` with element size 1.) -/
+theorem C11_str_push (l : LenTy) (s : Slice) (hlen : l.size ≤ s.len) (hv : (strD l).validateU s = .ok ()) (xs : Bytes)
+    (hxs : Utf8Ok xs) :
+    ∃ g len o, strGeo l s.len = .ok g ∧ l.readU s = .ok len ∧ vecOp g s.bytes len (.pushBytes xs) = .ok o ∧
+      o.bytes.length = s.len ∧ (strD l).validateU ⟨s.addr, o.bytes⟩ = .ok () ∧
+      (len + xs.length ≤ g.cap → o.ret = .ok ∧ l.readU ⟨s.addr, o.bytes⟩ = .ok (len + xs.length) ∧
+        strText g o.bytes (len + xs.length) = strText g s.bytes len ++ xs) ∧
+      (g.cap < len + xs.length → o.ret = .full ∧ o.bytes = s.bytes) := by
+  obtain ⟨g, len, hg, hr, hI, hS, hu⟩ := (str_valid_iff l s hlen).1 hv
+  obtain ⟨o, ho, hol, hok, hfull⟩ := pushBytes_refines g hS s.bytes len hI xs
+  obtain ⟨len', hI', hu'⟩ := pushBytes_keeps_utf8 g hS s.bytes len hI xs hu hxs o ho
+  have hal : s.addr % l.align = 0 := by
+    unfold LenTy.readU at hr
+    by_cases h : s.addr % l.align = 0
+    · exact h
+    · have : ¬ s.len < l.size := by omega
+      simp [this, h] at hr
+  have hgl : g.l = l ∧ g.dOff = l.size := by
+    have : ¬ s.len < l.size := by omega
+    simp only [strGeo, this, if_false, Res.ok.injEq] at hg
+    subst hg; exact ⟨rfl, rfl⟩
+  have hread : ∀ n, VInv g o.bytes n → l.readU ⟨s.addr, o.bytes⟩ = .ok n := by
+    intro n hn
+    have h1 : ¬ (⟨s.addr, o.bytes⟩ : Slice).len < l.size := by simp only [Slice.len]; rw [hol]; exact Nat.not_lt.2 hlen
+    have hd := hn.dec
+    unfold VecCfg.decLen VecGeo.cfg at hd
+    simp only [hgl.1] at hd
+    simp only [LenTy.readU, h1, if_false, hal, ne_eq, not_true_eq_false, Res.ok.injEq]
+    exact hd
+  have hlen' : l.size ≤ (⟨s.addr, o.bytes⟩ : Slice).len := by simp only [Slice.len]; rw [hol]; exact hlen
+  refine ⟨g, len, o, hg, hr, ho, hol, ?_, ?_, hfull⟩
+  · apply (str_valid_iff l ⟨s.addr, o.bytes⟩ hlen').2
+    refine ⟨g, len', ?_, hread len' hI', hI', hS, hu'⟩
+    show strGeo l o.bytes.length = .ok g
+    rw [hol]; exact hg
+  · intro hfit
+    obtain ⟨h1, h2, h3⟩ := hok hfit
+    exact ⟨h1, hread _ h2, h3⟩
+
+/-- non-vacuity: `FlatString<u8>` holding "a" in 4 bytes (capacity 3): pushing "é" (2 bytes) fits, pushing 3 more bytes does not -/
+example : (strD ⟨1, 1, false⟩).validateU ⟨0, [1, 0x61, 9, 9]⟩ = .ok () ∧ utf8ValidUpTo 3 0 [0xC3, 0xA9] = none ∧
+    vecOp ⟨⟨1, 1, false⟩, 1, 1, 3⟩ [1, 0x61, 9, 9] 1 (.pushBytes [0xC3, 0xA9]) = .ok ⟨.ok, [3, 0x61, 0xC3, 0xA9]⟩ ∧
+    vecOp ⟨⟨1, 1, false⟩, 1, 1, 3⟩ [1, 0x61, 9, 9] 1 (.pushBytes [0x62, 0x63, 0x64]) = .ok ⟨.full, [1, 0x61, 9, 9]⟩ := by decide
 end FV.Props
